@@ -911,7 +911,11 @@ class SDatetime(datetime):
     def __repr__(self):
         return "SDatetime(%s,off=%s)" % (self.us, self.off)
 
-    __str__ = __repr__
+    def __str__(self):
+        # str(datetime) is isoformat(' '): the tagged text that the iso8601 stub parses back
+        from .sstr import SIsoStr
+
+        return SIsoStr(self, " ")
 
     def __format__(self, spec):
         return repr(self)
